@@ -20,8 +20,10 @@ type GenerateSettings struct {
 	// constant. If both are provided, PackageName will take precedence.
 	PackageName string
 
-	typeByters        map[string]string
-	typeByteReaders   map[string]string
+	typeByters      map[string]string
+	typeByteReaders map[string]string
+	// structs whose byte-slice decoders report how many bytes they consumed
+	countedStructs    map[string]bool
 	typeMarshallers   map[string]string
 	typeUnmarshallers map[string]string
 	typeLengthers     map[string]string
@@ -454,6 +456,7 @@ func (f File) Generate(inputWriter io.Writer, settings GenerateSettings) error {
 	settings.typeMarshallers = f.typeMarshallers()
 	settings.typeByters = f.typeByters()
 	settings.typeByteReaders = f.typeByteReaders(settings)
+	settings.countedStructs = f.structsHoldingRecords(settings)
 	settings.typeUnmarshallers = f.typeUnmarshallers(settings)
 	settings.typeLengthers = f.typeLengthers()
 	settings.customRecordTypes = f.customRecordTypes()
